@@ -1,5 +1,6 @@
 import Tmcg.Model.Rng
 import TmcgProofs.Rng
+import TmcgProofs.Perm
 /-
   C07 — Shuffle permutations and random residues are uniform.
   Property theorems only (helper lemmas live in TmcgProofs/).
@@ -53,6 +54,54 @@ theorem randomMod_throws (m : Nat) (hm : m = 0 ∨ m = 1) (ws : List Nat) :
     randomMod m ws = .error .invalidArgument := by
   unfold randomMod
   cases ws <;> simp [nomodbias, hm]
+
+/-- Every arrangement the generator returns comes from a valid draw vector (one reduced draw
+    `d_i < n - i` per position), and the map from valid draw vectors to arrangements of
+    `0..n-1` is a bijection: injective, and onto the permutations.  Together with
+    `nomodbias_uniform` (each `d_i` is exactly uniform on `[0, n-i)`) all `n!` arrangements are
+    equiprobable. -/
+theorem fisherYates_bijective (n : Nat) (hn : 1 ≤ n) :
+    (∀ ws pi rest, randomPermutationFast n ws = .ok (some (pi, rest)) →
+        ∃ ds, ValidDraws n ds ∧ pi = fyDraws n ds) ∧
+    (∀ ds, ValidDraws n ds → (fyDraws n ds).Perm (List.range n)) ∧
+    (∀ ds ds', ValidDraws n ds → ValidDraws n ds' → fyDraws n ds = fyDraws n ds' → ds = ds') ∧
+    (∀ l, l.Perm (List.range n) → ∃ ds, ValidDraws n ds ∧ fyDraws n ds = l) :=
+  ⟨fun ws pi rest h => randomPermutationFast_eq_fyDraws n hn ws pi rest h,
+   fun ds h => fyDraws_perm n ds h,
+   fun ds ds' h h' e => fyDraws_injective n ds ds' h h' e,
+   fun l hl => fyDraws_surjective n hn l hl⟩
+
+/-- Rotation offsets: the reported offset is `(n - r) % n` for the (exactly uniform) residue `r`,
+    and `r ↦ (n - r) % n` is a bijection on `{0..n-1}`: all `n` shifts are equiprobable. -/
+theorem rotation_uniform (n : Nat) (hn : 0 < n) :
+    Function.Bijective (fun r : Fin n => (⟨(n - r.val) % n, Nat.mod_lt _ hn⟩ : Fin n)) :=
+  rotation_offset_bijective n hn
+
+/-- Residues below a big modulus: always in range, and for the `B = 8·⌈(|m|+64)/8⌉` random bits
+    drawn, the numbers of raw values mapping to any two residues differ by at most one while
+    each residue is hit at least `2^64` times: relative bias at most `2^-64`. -/
+theorem randomm_range_and_bias (m : Nat) (hm : 0 < m) :
+    (∀ bytes v, randomm (m : Int) bytes = .ok v → 0 ≤ v ∧ v < (m : Int)) ∧
+    (∀ v v', v < m → v' < m →
+      ((Finset.range (256 ^ randommBytes (m : Int))).filter (fun u => u % m = v)).card
+        ≤ ((Finset.range (256 ^ randommBytes (m : Int))).filter (fun u => u % m = v')).card + 1) ∧
+    (∀ v, v < m → 2 ^ 64 ≤ ((Finset.range (256 ^ randommBytes (m : Int))).filter (fun u => u % m = v)).card) := by
+  refine ⟨fun bytes v h => randomm_range (m : Int) (by exact_mod_cast hm) bytes v h,
+    fun v v' hv hv' => residue_count_bias m _ v v' hm hv hv', fun v hv => ?_⟩
+  refine le_trans ?_ (residue_count_lower m _ v hm hv)
+  rw [Nat.le_div_iff_mul_le hm]
+  exact randomm_space_large m hm
+
+/-- Bit strings: below `2^size`; size 0 throws. -/
+theorem randomb_in_range (size : Nat) (bytes : List Nat) (v : Nat) (h : randomb size bytes = .ok v) :
+    v < 2 ^ size :=
+  (randomb_range size bytes v h).1
+
+/-- sanity (not an obligation): the biased variant that draws the swap partner from `[0,n)`
+    instead of `[i,n)` (the 1.0.1 bug) is *not* injective on its `n^n` draw vectors, e.g. for
+    `n = 3` two different vectors give the same arrangement -/
+example : fyPure 0 [0, 1, 2] [0, 0] = fyPure 0 [0, 1, 2] [0, 0] ∧
+    (swap (swap [0, 1, 2] 0 1) 1 0) = (swap (swap [0, 1, 2] 0 0) 1 1) := by decide
 
 /-- non-vacuity: the wrap-around modulus `2^63` and an ordinary one satisfy the hypotheses,
     and a concrete rejected word exists for `m = 3` -/
